@@ -36,6 +36,10 @@ func main() {
 	disk := fs.Uint64("disk", 20000, "disk size in blocks")
 	dumpEach := fs.Int("dumpeach", 50, "dump every n steps")
 	prop := fs.String("prop", "", "probes: property filter")
+	part := fs.Int("part", 0, "windows: which slice of the experiment matrix")
+	parts := fs.Int("parts", 1, "windows: number of slices")
+	clients := fs.Int("clients", 3, "conc: client goroutines")
+	access := fs.Bool("access", false, "conc: record lock events and inode accesses instead of the history")
 	sizesFlag := fs.String("sizes", "", "layout: disk sizes, e.g. 1536-1600,32760-32776 (increasing)")
 	fillFlag := fs.String("fill", "", "layout: sizes to fill completely")
 	crashMode := fs.Bool("crashpoints", false, "simple/kvs: enumerate crash points")
@@ -138,6 +142,25 @@ func main() {
 			}
 		}
 		drv.RunLayout(sizes, fill, t, 0)
+		t.Close()
+		fmt.Printf("events=%d\n", t.N)
+	case "conc":
+		t, err := drv.NewTrace(*out)
+		if err != nil {
+			panic(err)
+		}
+		for i := 0; i < *nseg; i++ {
+			drv.RunConc(drv.ConcCfg{Seed: *seed*1000 + i, Clients: *clients, OpsPer: *steps, Unstable: i%2 == 0, Avoid: avoidSet(*avoid),
+				Access: *access}, t, i)
+		}
+		t.Close()
+		fmt.Printf("events=%d\n", t.N)
+	case "windows":
+		t, err := drv.NewTrace(*out)
+		if err != nil {
+			panic(err)
+		}
+		drv.RunWindows(*seed, *part, *parts, t, 0)
 		t.Close()
 		fmt.Printf("events=%d\n", t.N)
 	case "probes":
